@@ -45,16 +45,16 @@ TABLE = {
                         "pandas: df.copy() is a new object with equal content; a.equals(b) <=> same content", "data_cache is never None (the debug store is enabled, as constructed)"],
     },
     "C18": {
-        "mods": ["contracts.glue"], "keys": ["SQLModel.order_to_near_sql"],
+        "mods": ["contracts.glue"], "keys": ["SQLModel.order_to_near_sql", "PandasModel._order_rows_step", "PolarsModel._order_rows_step"],
         "explanation": ("hybrid: PROVED (pyvc) -- SQLModel.order_to_near_sql hands the formatter exactly the quoted order columns in order, with ' DESC' appended exactly on the reversed "
-                        "ones, the suffix starts with ORDER BY when there are order columns and ends with 'LIMIT <n>' exactly when a limit is set (limit=0 included); BOUNDED -- permutation / "
-                        "re-index invariance and sortedness+limit of the results on Pandas, Polars, SQLite over the enumerated scope (the Pandas/Polars sort calls are not under contract)"),
+                        "ones, the suffix starts with ORDER BY when there are order columns and ends with 'LIMIT <n>' exactly when a limit is set (limit=0 included); the Pandas and Polars order_rows steps sort the evaluated source by exactly the order columns, ascending except on the reversed ones, and cut to the limit; BOUNDED -- permutation / "
+                        "re-index invariance and sortedness+limit of the results on Pandas, Polars, SQLite over the enumerated scope (sort_values / sort / head / iloc themselves are assumed library contracts)"),
         "assumptions": ["string + is an uninterpreted cancellative concatenation; quote_identifier, _indent_and_sep_terms, NearSQLUnaryStep keep what they are given (near_sql rendering not under contract)"],
     },
     "C19": {
-        "mods": ["contracts.glue"], "keys": ["PandasModel.clean_copy", "PandasModel._table_step"],
+        "mods": ["contracts.glue", "contracts.c06_builders"], "keys": ["PandasModel.clean_copy", "PandasModel._table_step"] + RL,
         "explanation": ("hybrid: PROVED (pyvc) -- every returning path of PandasModelBase._table_step (the only place a caller's frame enters the Pandas executor) returns "
-                        "clean_copy(df.loc[:, declared columns]) and clean_copy returns reset_index(drop=True, inplace=False), i.e. a new frame under the assumed pandas contract; "
+                        "clean_copy(df.loc[:, declared columns]) and clean_copy returns reset_index(drop=True, inplace=False), i.e. a new frame under the assumed pandas contract; composition (replace_leaves of 10 node classes) never modifies the node being rebuilt, so a pipeline evaluates the same after it was used in a composition; "
                         "BOUNDED -- deep snapshots of caller frames around eval/transform/ex/>> on Pandas and Polars, repeatability"),
         "assumptions": ["pandas: reset_index(drop=True, inplace=False) returns a new frame; df.loc[:, cols] is a function of (df, cols)",
                         "the other _X_step functions write only to frames obtained from _eval_value_source (not under contract; bounded run only)"],
